@@ -294,7 +294,7 @@ def make(lo_flag, ro_flag, fname='iterjoin'):
                          z3.If(want, z3.And(z3.BoolVal(len(flushed) == 1), flushed[0][1] == cur) if len(flushed) == 1 and not isinstance(flushed[0][1], str) else z3.BoolVal(False),
                                z3.BoolVal(len([e for e in flushed if not isinstance(e[1], str)]) == 0)))
               if len(flushed) == 1 and not isinstance(flushed[0][1], str):
-                  ctx.oblige('exit: a flushed left group has no partner on the right', z3.Implies(want, no_partner_left(inner(cur))))
+                  ctx.oblige('exit: a flushed left group has no partner on the right', z3.Implies(want, no_partner_left(inner(cur))), solver='cvc5')
           else:
               ctx.oblige('exit: without a fetched left group nothing of the left is flushed', z3.BoolVal(all(isinstance(e[1], str) for e in seg['hl'])))
           # hanging right group
